@@ -206,7 +206,9 @@ def ledger_episode(ctx, props, chain=False, discrete=False, prebuilt=None):
     reuse_buffer = rng.random() < 0.25
     buf = None
     fork_at = rng.randint(1, 4) if rng.random() < 0.2 else None
-    refuse_at = rng.randint(0, 3) if (d == 0 and not discrete and not chain and rng.random() < 0.3) else None
+    refuse_at = rng.randint(0, 3) if (not discrete and not chain and rng.random() < 0.3) else None
+    bad_due_call = None        # with a delay, a malformed action is refused when it becomes DUE, d calls later
+    calls = 0
     if reuse_buffer and not discrete:
         ctx.cat("action-buffer-reused-in-place")
     with Mon(sink) as mon:
@@ -236,6 +238,18 @@ def ledger_episode(ctx, props, chain=False, discrete=False, prebuilt=None):
                     ctx.cat("target-asks-for-dust-trade")
             acts.append(a)
             mark = len(sink.log)
+            submitting_bad = False
+            if refuse_at == k and d >= 1 and not cfg.get("nrc") and bad_due_call is None:
+                # with an execution delay, an out-of-bounds action sits in the queue for d calls and is refused when
+                # it becomes due: that call raises (nothing is executed, the clock does not move), the caller goes on
+                acts.pop()
+                a = np.array(a, dtype=float) + 10.0
+                bad_due_call = calls + d
+                refuse_at = None
+                submitting_bad = True
+                ctx.cat("delayed-decision-refused-when-due")
+            elif refuse_at == k and d >= 1:
+                refuse_at = None
             if refuse_at == k:
                 # a decision the environment REFUSES (out of the declared bounds; or, with positions in numbers of
                 # contracts, a multi-leg decision whose last leg is in a contract without quote): it raises, the
@@ -282,7 +296,8 @@ def ledger_episode(ctx, props, chain=False, discrete=False, prebuilt=None):
                 if buf is None:
                     buf = np.array(a, dtype=float)
                 buf[:] = a
-                acts[-1] = np.array(a, dtype=float)
+                if not submitting_bad:
+                    acts[-1] = np.array(a, dtype=float)
                 a = buf
             if fork_at == k and not done:
                 # a what-if fork: the running environment is deep-copied (or pickled and restored), the copy is
@@ -298,11 +313,30 @@ def ledger_episode(ctx, props, chain=False, discrete=False, prebuilt=None):
                         if fork.step(fa)[2]:
                             break
                     ctx.cat("forked-mid-episode")
-                except EndOfEpisodeError:
+                except (EndOfEpisodeError, ValueError):
+                    # (the fork ends, or refuses a malformed action that was waiting in its copy of the delay queue)
                     ctx.cat("forked-mid-episode")
                 finally:
                     AbstractContract.now = env.now() if env.now() is not None else AbstractContract.now
                     mon.n_rebalance, mon.n_transact = counters      # (the fork's calls are not this episode's)
+            calls += 1
+            if bad_due_call is not None and calls - 1 == bad_due_call:
+                h0_, n0_, tx0_ = env.broker.holdings_quantity, len(env.broker.track_record), mon.n_transact
+                try:
+                    env.step(a)
+                    refused = False
+                except EndOfEpisodeError:
+                    break
+                except Exception:
+                    refused = True
+                pfx = "C08" if "C08" in props else "C07" if "C07" in props else "C01"
+                ctx.check(pfx + ":refused-decision-leaves-no-trace", refused and env.broker.holdings_quantity == h0_ and
+                          len(env.broker.track_record) == n0_ and mon.n_transact == tx0_, raised=refused, delayed=True,
+                          transacts=mon.n_transact - tx0_, records=len(env.broker.track_record) - n0_)
+                bad_due_call = -1
+                if not refused:
+                    break
+                continue        # (this call's own action is queued; the same timestep is decided again)
             try:
                 o, r, done, info = env.step(a)
             except EndOfEpisodeError:
@@ -329,7 +363,9 @@ def ledger_episode(ctx, props, chain=False, discrete=False, prebuilt=None):
     trk = env.broker.track_record
     C07, C08, C01 = "C07" in props, "C08" in props, "C01" in props
     if C07:
-        ctx.check("C07:one-entry-per-decision", len(trk) == len(acts) == mon.n_rebalance, entries=len(trk), decisions=len(acts))
+        # (a malformed action still waiting in the delay queue when the data ended was submitted but never came due)
+        n_dec = len(acts) + (1 if bad_due_call not in (None, -1) else 0)
+        ctx.check("C07:one-entry-per-decision", len(trk) == n_dec == mon.n_rebalance, entries=len(trk), decisions=n_dec)
     led = Ledger(cash0, fees)
     cur_rate = 0.0
     last_m = None
